@@ -70,8 +70,9 @@ def make_section_lines(rng, shape, idx, same=None):
     if kind == 'combined_binary':
         return ['diff --cc assets%d/icon.png' % idx, 'index 5555555,6666666..7777777', 'Binary files differ']
     if kind in ('combined', 'combined_conflict'):
-        ls, _m, _p = corpus.gen_combined(rng, conflict=kind == 'combined_conflict' or rng.random() < 0.3, nconflicts=rng.choice([1, 1, 2]), styles=('diff3', 'merge'),
-                                         lead=rng.choice([None, None, 0]))
+        conflict = kind == 'combined_conflict' or rng.random() < 0.3
+        ls, _m, _p = corpus.gen_combined(rng, conflict=conflict, nconflicts=rng.choice([1, 1, 2]), styles=('diff3', 'merge'),
+                                         lead=rng.choice([None, None, 0]) if conflict else None)     # (no hunk without lines)
         ls = [l.replace(_p, 'cc%d/%s' % (idx, _p)) if l.startswith(('diff --cc', '--- ', '+++ ')) else l for l in ls]
         return ls
     s = gen.gen_section(rng, kind, simple_paths=True, maxlines=6, maxlen=50)
